@@ -199,6 +199,99 @@ func jsonCheckRace(b []byte, trailing bool, n int) (seq string, others []string)
 	return
 }
 
+// ---- several documents read in lockstep: what NextLexeme delivers for one document does not depend on what other
+// document objects are being read at the same moment, nor on calls made on documents that have already ended.
+func jsonOneCall(d jlib.Document) string {
+	return vh.Recover(func() string {
+		lex, err := d.NextLexeme()
+		if err == io.EOF {
+			if lex.File() != nil {
+				return fmt.Sprintf("EOF+%s[%d:%d]", lex.Type().String(), int(lex.Begin()), int(lex.End()))
+			}
+			return "EOF"
+		}
+		if err != nil {
+			return perr(err)
+		}
+		return fmt.Sprintf("%s[%d:%d]", lex.Type().String(), int(lex.Begin()), int(lex.End()))
+	})
+}
+
+func jsonNewDoc(b []byte, trailing bool) jlib.Document {
+	if trailing {
+		return jdoc.New("d", b, jdoc.AllowTrailingNonSpaceCharacters())
+	}
+	return jdoc.New("d", b)
+}
+
+// jsonCallsAlone: the results of n consecutive NextLexeme calls on a fresh document nobody else interferes with
+func jsonCallsAlone(b []byte, trailing bool, n int) []string {
+	d := jsonNewDoc(b, trailing)
+	out := make([]string, n)
+	for i := range out {
+		out[i] = jsonOneCall(d)
+	}
+	return out
+}
+
+func jsonLockstep(rep *vh.Report, r *rand.Rand, texts [][]byte) {
+	k := len(texts)
+	tr := make([]bool, k)
+	need := make([]int, k)
+	alone := make([][]string, k)
+	for i, b := range texts {
+		tr[i] = r.Intn(2) == 0
+		// number of calls: up to the end of the stream (EOF or error) plus 1-3 calls past it
+		n := 0
+		d := jsonNewDoc(b, tr[i])
+		for ; n < 4000; n++ {
+			x := jsonOneCall(d)
+			if strings.HasPrefix(x, "EOF") || strings.HasPrefix(x, "ERR") || strings.HasPrefix(x, "PANIC") {
+				n++
+				break
+			}
+		}
+		need[i] = n + 1 + r.Intn(3)
+		alone[i] = jsonCallsAlone(b, tr[i], need[i])
+	}
+	docs := make([]jlib.Document, k)
+	created := make([]bool, k)
+	got := make([][]string, k)
+	left := 0
+	for i := range texts {
+		left += need[i]
+	}
+	for left > 0 {
+		i := r.Intn(k)
+		if len(got[i]) >= need[i] {
+			continue
+		}
+		if !created[i] { // documents are created at different moments of the others' lives
+			docs[i] = jsonNewDoc(texts[i], tr[i])
+			created[i] = true
+		}
+		for burst := 1 + r.Intn(3); burst > 0 && len(got[i]) < need[i]; burst-- {
+			got[i] = append(got[i], jsonOneCall(docs[i]))
+			left--
+		}
+	}
+	rep.Stat("lockstep_groups")
+	for i := range texts {
+		rep.Case(fmt.Sprintf("lockstep:%d:%s", k, texts[i]), true)
+		for c := range alone[i] {
+			if got[i][c] != alone[i][c] {
+				var all []string
+				for _, t := range texts {
+					all = append(all, fmt.Sprintf("%q", t))
+				}
+				rep.AddDiff(vh.Diff{Component: "C06-lockstep", Input: fmt.Sprintf("documents %s read in lockstep (random bursts of NextLexeme, 1-3 calls past each end); document #%d trailing=%v, call #%d", strings.Join(all, " , "), i, tr[i], c+1),
+					Impl: got[i][c], Model: "the same call on a fresh document read alone: " + alone[i][c]})
+				break
+			}
+		}
+	}
+}
+
 func okBit(c string) string {
 	if c == "OK" {
 		return "1"
@@ -602,6 +695,25 @@ func init() {
 						Impl: "some callers got: " + strings.Join(others, " / "), Model: "every caller gets what a sequential caller gets: " + seq})
 				}
 			}
+		}
+		// several documents in lockstep (valid texts, their truncations and damaged copies), 2-4 at a time
+		for i := vh.Pick(1500, 15000); i > 0; i-- {
+			k := 2 + r.Intn(3)
+			texts := make([][]byte, k)
+			for j := range texts {
+				genBudget = 5 + r.Intn(40)
+				b := []byte(genWS(r) + genValue(r, 1+r.Intn(4), 1+r.Intn(4)) + genWS(r))
+				switch r.Intn(5) {
+				case 0:
+					b = b[:r.Intn(len(b)+1)]
+				case 1:
+					b = vh.Mutate(r, b, jsonAlphabet)
+				case 2:
+					b = []byte(jsonSeeds[r.Intn(len(jsonSeeds))])
+				}
+				texts[j] = b
+			}
+			jsonLockstep(rep, r, texts)
 		}
 		// valid texts + property-level checks
 		for i := vh.Pick(6000, 120000); i > 0; i-- {
